@@ -147,6 +147,11 @@ func (b *prefixBatch) Put(key, value []byte) error {
 	return nil
 }
 
+func (b *prefixBatch) Delete(key []byte) error {
+	b.b.Delete(generateKey(key, b.prefix))
+	return nil
+}
+
 func (b *prefixBatch) Write() error {
 	if verifDropWrite() {
 		return nil
